@@ -340,12 +340,15 @@ def bytes_rule(ctx: Ctx) -> None:
                 tg = n.targets[0] if isinstance(n, ast.Assign) else n.target
                 if isinstance(tg, ast.Name) and tg.id in used:
                     units = n.value
-    ctx.need(units is not None, "unit table of convert_to_bytes not found")
-    tbl = {k.value: (v.value if isinstance(v, ast.Constant) else None) for k, v in zip(units.keys, units.values)}
-    ok = tbl == {"kB": 1, "MB": 2, "GB": 3, "TB": 4, "PB": 5}
-    ctx.ob(f, units, ok, "unit table maps kB, MB, GB, TB, PB to exponents 1..5", sel="bytes:table")
+    ok = False
+    if ctx.present(f, units is not None, "unit table of convert_to_bytes"):
+        tbl = {k.value: (v.value if isinstance(v, ast.Constant) else None) for k, v in zip(units.keys, units.values)}
+        ok = tbl == {"kB": 1, "MB": 2, "GB": 3, "TB": 4, "PB": 5}
+    ctx.ob(f, units or f.node, ok, "unit table maps kB, MB, GB, TB, PB to exponents 1..5", sel="bytes:table")
     pows = [(g_, n) for g_ in scope for n in g_.own_nodes() if isinstance(n, ast.BinOp) and isinstance(n.op, ast.Pow)]
-    ctx.need(pows, "no power expression in convert_to_bytes: unit factor not recognised")
+    if not ctx.present(f, pows, "power expression (unit factor) of convert_to_bytes"):
+        ctx.ob(f, f.node, False, "the unit factor is 1000 ** exponent (decimal SI) — no power expression left", sel="bytes:base")
+        return
     G, pw = pows[0]
     ok = len(pows) == 1 and isinstance(pw.left, ast.Constant) and pw.left.value == 1000 and isinstance(pw.right, (ast.Subscript, ast.Name, ast.Call))
     ctx.ob(G, pw, ok, "the unit factor is 1000 ** exponent (decimal SI)" + ("" if ok else f" — found `{unparse(pw)}`"), sel="bytes:base")
@@ -360,9 +363,8 @@ def bytes_rule(ctx: Ctx) -> None:
             for i, el in enumerate(n.value.elts):
                 if any(x is pw for x in ast.walk(el)):
                     ones += [m.value.elts[i] for m in G.own_nodes() if isinstance(m, ast.Return) and m is not n and isinstance(m.value, ast.Tuple) and len(m.value.elts) == len(n.value.elts) and isinstance(m.value.elts[i], ast.Constant)]
-    ctx.need(ones, "the factor of the unit-less forms of convert_to_bytes not recognised")
-    ok = all(n.value == 1 for n in ones)
-    ctx.ob(G, ones[0], ok, "numeric strings and the bare `B` suffix are taken as bytes (factor 1)", sel="bytes:unit-one")
+    ok = ctx.present(f, ones, "the factor of the unit-less forms of convert_to_bytes") and all(n.value == 1 for n in ones)
+    ctx.ob(G, ones[0] if ones else G.node, ok, "numeric strings and the bare `B` suffix are taken as bytes (factor 1)", sel="bytes:unit-one")
     # the value whose integrality is tested is the exact product: nothing rounds it first
     fl_, cfg_ = flow_of(repo, f), cfg_of(f)
     tests = [c for c in f.own_nodes() if isinstance(c, ast.Call) and isinstance(c.func, ast.Attribute) and c.func.attr == "is_integer" and isinstance(c.func.value, ast.Name) and cfg_.has(c)]
@@ -402,7 +404,6 @@ def bytes_rule(ctx: Ctx) -> None:
     # the string-format chain ends in a raise: in the function that computes the factor, the
     # last test that asks "is this part numeric" has only raising exits on its failing side
     testers = {g_.name for g_ in scope if any(isinstance(x, ast.Try) for x in g_.own_nodes()) and any(isinstance(x, ast.Call) and isinstance(x.func, ast.Name) and x.func.id == "float" for x in g_.own_nodes())}
-    ctx.need(testers, "numeric-string tester of convert_to_bytes not found")
     cfgG = cfg_of(G)
 
     def asks_numeric(t: ast.AST) -> bool:
@@ -410,15 +411,17 @@ def bytes_rule(ctx: Ctx) -> None:
 
     chain = [n for n in cfgG.stmts(ast.If) if asks_numeric(n.stmt.test)]
     if G is f:
+        # the string forms are tried only for strings: the tests sit on the true side of
+        # `isinstance(size, str)`
         str_if = [n for n in cfg.stmts(ast.If) if isinstance(n.stmt.test, ast.Call) and unparse(n.stmt.test).startswith("isinstance(size, str)")]
-        ctx.need(str_if, "string branch of convert_to_bytes not found")
-        chain = [n for n in chain if cfg.dominates(str_if[0].id, n.id)]
-    ctx.need(chain, "string-format tests of convert_to_bytes not found")
-    last = chain[-1]
-    neg = isinstance(last.stmt.test, ast.UnaryOp) and isinstance(last.stmt.test.op, ast.Not)
-    fe = cfgG.edge_targets(last.id, "true" if neg else "false")
-    ok = bool(fe) and all(cfgG.exits_only_to(x, {last.id}, is_raise) for x in fe) and any(isinstance(cfgG.nodes[y].stmt, ast.Raise) for x in fe for y in cfgG._reachable(x, {last.id}))
-    ctx.ob(G, last.stmt, ok, "a string that matches none of the accepted forms raises ValueError", sel="bytes:bad-string")
+        chain = [n for n in chain if str_if and any(cfg.can_reach(t_, n.id, avoid={str_if[0].id}) or t_ == n.id for t_ in cfg.edge_targets(str_if[0].id, "true"))]
+    ok = False
+    last = chain[-1] if chain else None
+    if ctx.present(f, chain, "string-format tests of convert_to_bytes"):
+        neg = isinstance(last.stmt.test, ast.UnaryOp) and isinstance(last.stmt.test.op, ast.Not)
+        fe = cfgG.edge_targets(last.id, "true" if neg else "false")
+        ok = bool(fe) and all(cfgG.exits_only_to(x, {last.id}, is_raise) for x in fe) and any(isinstance(cfgG.nodes[y].stmt, ast.Raise) for x in fe for y in cfgG._reachable(x, {last.id}))
+    ctx.ob(G, last.stmt if last is not None else G.node, ok, "a string that matches none of the accepted forms raises ValueError", sel="bytes:bad-string")
     fl_if = [n for n in cfg.stmts(ast.If) if "is_integer" in unparse(n.stmt.test)]
     if not fl_if:
         # absence is a verdict only when the test cannot live in a private piece
